@@ -61,4 +61,14 @@ PROPS = {
              "params": {"quick": {"depth": 2, "width": 1, "strlen": 1}, "thorough": {"depth": 2, "width": 2, "strlen": 2}}, "wall": {"thorough": "40m"}},
         ],
     },
+    "C01": {
+        "technique": "bounded symbolic execution of lisp.EVAL (eval_ast, do, env.*, types.Apply, binder) on lazily materialised symbolic ASTs, differential against an independent reference interpreter (result, error/no error, ordered effect trace, final globals); SMT (z3) decides assertions",
+        "outside": "programs deeper/wider than the bound (skeleton families with symbolic holes and integers extend the reach: recursion with a symbolic counter <= 3, closures, shadowing, def inside fn, & rest, late def); host-stack exhaustion; builtins outside the vocabulary (+ - < = list count nil? trace!); = applied to functions (undefined); special-form names rebound as variables",
+        "runs": [
+            {"pkg": "./c01", "harness": "Harness_programs", "setup": "Setup",
+             "params": {"quick": {"depth": 1, "width": 2}, "thorough": {"depth": 2, "width": 1}}, "wall": {"thorough": "40m"}},
+            {"pkg": "./c01", "harness": "Harness_skeletons", "setup": "Setup",
+             "params": {"quick": {"holedepth": 1}, "thorough": {"holedepth": 1}}, "wall": {"thorough": "40m"}},
+        ],
+    },
 }
